@@ -85,7 +85,7 @@ def r_stmt(s, st=PLAIN, ind=''):
     if k == 'expr':
         e = s[1]
         txt = r_expr(e, st)
-        if e[0] == 'obj':        # `{` at statement start would open a block
+        if txt.lstrip().startswith('{'):        # `{` at statement start would open a block: the tree is an expression
             txt = '(' + txt + ')'
         return ind + txt + ';'
     if k == 'print':
